@@ -32,6 +32,7 @@ type Interp struct {
 	ptrIDs   map[*Value]int
 	timeTick int
 	ss       *schedState
+	hb       *hbState // happens-before tracking of map accesses (verifrt.MapRaces); nil = off
 	violation *Violation
 	tags     []string
 	nAsserts int
@@ -524,7 +525,11 @@ func (fr *frame) exec(ins ssa.Instruction) {
 	case *ssa.MakeChan:
 		fr.setLocal(x, &chanV{cap: in.cint(fr.get(x.Size))})
 	case *ssa.MakeMap:
-		fr.setLocal(x, &mapV{})
+		nm := &mapV{}
+		if in.hb != nil && gormMade(fnPkgPath(fr.fn)) {
+			in.hbWatch(nm, fr.fn.String())
+		}
+		fr.setLocal(x, nm)
 	case *ssa.MapUpdate:
 		m, ok := fr.get(x.Map).(*mapV)
 		if !ok {
@@ -533,10 +538,16 @@ func (fr *frame) exec(ins ssa.Instruction) {
 		if m == nil {
 			in.goPanicStr("assignment to entry in nil map")
 		}
+		if in.hb != nil {
+			in.hbMapWrite(m, fr.fn.String())
+		}
 		in.mapSet(m, fr.get(x.Key), copyVal(fr.get(x.Value)))
 	case *ssa.Lookup:
 		switch m := fr.get(x.X).(type) {
 		case *mapV:
+			if in.hb != nil {
+				in.hbMapRead(m, fr.fn.String())
+			}
 			v, ok := in.mapGet(m, fr.get(x.Index))
 			if !ok {
 				v = zero(x.X.Type().Underlying().(*types.Map).Elem())
@@ -558,6 +569,9 @@ func (fr *frame) exec(ins ssa.Instruction) {
 	case *ssa.Range:
 		switch m := fr.get(x.X).(type) {
 		case *mapV:
+			if in.hb != nil {
+				in.hbMapRead(m, fr.fn.String())
+			}
 			it := &iterV{m: m}
 			if m != nil {
 				it.keys = append([]Value{}, m.keys...)
@@ -1111,6 +1125,7 @@ func (fr *frame) builtin(name string, args []Value, c *ssa.CallCommon) Value {
 			in.goPanicStr("close of closed channel")
 		}
 		ch.closed = true
+		in.hbRelease(ch)
 		in.schedPoint("close")
 		return nil
 	case "copy":
@@ -1134,6 +1149,9 @@ func (fr *frame) builtin(name string, args []Value, c *ssa.CallCommon) Value {
 		return bv(64, uint64(n))
 	case "delete":
 		m := args[0].(*mapV)
+		if in.hb != nil {
+			in.hbMapWrite(m, fr.fn.String())
+		}
 		if m != nil {
 			for i := range m.keys {
 				if in.keyEq(m.keys[i], args[1]) {
@@ -1201,6 +1219,9 @@ func (fr *frame) builtin(name string, args []Value, c *ssa.CallCommon) Value {
 		return r
 	case "clear":
 		if m, ok := args[0].(*mapV); ok && m != nil {
+			if in.hb != nil {
+				in.hbMapWrite(m, fr.fn.String())
+			}
 			m.keys, m.vals = nil, nil
 		}
 		return nil
